@@ -1,10 +1,13 @@
 """C01 unit-level drivers of the real code (snapshot via PYTHONPATH).
 stdin JSON lines: {"k":"R","e":entity}  -> {"out": str} | {"exc": name}, plus what Python's own int()/name table said
-                  {"k":"P","counts":[..]} -> {"path": [[apo,b,i],...]} | {"exc": name}"""
+                  {"k":"P","counts":[..]} -> {"path": [[apo,b,i],...], "work": [states handed to sort_states per step]} | {"exc": name}
+compute_path runs under a CPU budget of P_BUDGET seconds (a blow-up must not stall the check: it is reported as exc OverBudget)."""
 import html.entities
 import json
 import logging
+import signal
 import sys
+import time
 import warnings
 
 warnings.simplefilter("ignore")
@@ -12,6 +15,30 @@ logging.disable(logging.CRITICAL)
 
 from mwlib.parser.refine import util  # noqa: E402
 from mwlib.parser import styleanalyzer  # noqa: E402
+
+
+P_BUDGET = 4.0            # the unchanged tree needs < 5 ms for 60 counts
+_work = []
+_orig_sort = styleanalyzer.sort_states          # AttributeError here = the code no longer has the anchored shape (fail-closed)
+
+
+def _counting_sort(states):
+    _work.append(len(states))
+    return _orig_sort(states)
+
+
+styleanalyzer.sort_states = _counting_sort
+
+
+class OverBudget(BaseException):
+    pass
+
+
+def _alarm(_sig, _frame):
+    raise OverBudget()
+
+
+signal.signal(signal.SIGVTALRM, _alarm)
 
 
 def int_outcome(e):
@@ -40,7 +67,18 @@ for line in sys.stdin:
             r["name"] = name_outcome(c["e"])
             r["out"] = util.resolve_entity(c["e"])
         else:
-            r["path"] = [[s.apocount, int(bool(s.is_bold)), int(bool(s.is_italic))] for s in styleanalyzer.compute_path(c["counts"])]
+            del _work[:]
+            t0 = time.process_time()
+            signal.setitimer(signal.ITIMER_VIRTUAL, P_BUDGET)
+            try:
+                path = styleanalyzer.compute_path(c["counts"])
+            finally:
+                signal.setitimer(signal.ITIMER_VIRTUAL, 0)
+                r["cpu"] = round(time.process_time() - t0, 4)
+                r["work"] = list(_work)
+            r["path"] = [[s.apocount, int(bool(s.is_bold)), int(bool(s.is_italic))] for s in path]
+    except OverBudget:
+        r["exc"] = "OverBudget"
     except Exception as e:  # noqa: BLE001
         r["exc"] = type(e).__name__
     sys.stdout.write(json.dumps(r) + "\n")
